@@ -775,4 +775,4 @@ if __name__ == '__main__':
                      'arbitrary unicode / header combinations / webob, '
                      'routes and keystonemiddleware internals are outside '
                      'the claim'],
-        quick_budget=170, thorough_budget=1700))
+        quick_budget=420, thorough_budget=2400))
